@@ -286,7 +286,7 @@ PROPS = {
                              search=[('awsops', ['-n', 20000]), ('hist', ['-n', 1500, '-scans', 12]), ('hist', ['-n', 1000, '-scans', 12, '-focus', 'churn']), ('hist', ['-n', 32, '-scans', 8, '-focus', 'churn', '-slow'])]),
                 aspects=['journal', 'outcome', 'cached-desired', 'hist:removals', 'hist:outcome'], monitors=['C19'],
                 theorems=['Esc.P.C19_delete', 'Esc.P.C19_count', 'Esc.P.C19_refuse', 'Esc.P.C19_k8s_after_cloud', 'Esc.P.C19_scan_batches',
-                          'Esc.P.C19_not_member_scan', 'Esc.P.C19_not_member_fatal', 'Esc.P.C19_membership_fresh'],
+                          'Esc.P.C19_not_member_scan', 'Esc.P.C19_not_member_fatal', 'Esc.P.C19_membership_fresh', 'Esc.P.forever_stops_on_every_error'],
                 technique='Lean 4 theorem over the model of aws.NodeGroup.DeleteNodes and TryDeleteNodes (induction over the node list, every failing index) lifted to the scan journal shape + differential correspondence + monitors',
                 level_text='C19_delete: DeleteNodes refuses without any call when the minimum would be breached, else terminates (with decrement) exactly the instances of a prefix of the given nodes, stopping at the first non-member (not-in-group) '
                            'or failed call; C19_count <= desired-min; C19_k8s_after_cloud / C19_scan_batches: Node deletions only after the whole batch was accepted, for both batches of a scan; C19_not_member_*: the error ends the scan and makes RunOnce fatal; C19_membership_fresh: "member" and "minimum" are those of an answer the cloud gave in this same scan (distinct cloud groups). '
@@ -350,7 +350,7 @@ PROPS = {
                              search=[('hist', ['-n', 2500, '-scans', 8, '-focus', 'faults']), ('hist', ['-n', 32, '-scans', 8, '-focus', 'churn', '-slow']), ('hist', ['-n', 80, '-scans', 8, '-focus', 'fleetfail'])]),
                 aspects=['hist:outcome', 'hist:reccount', 'hist:ok', 'panic'], monitors=['C20'],
                 theorems=['Esc.P.C20_outcomes', 'Esc.P.C20_fatal_only_partial', 'Esc.P.C20_contained', 'Esc.P.C20_provider_id_guard', 'Esc.P.C20_ready_bounded',
-                          'Esc.P.C12_containment', 'Esc.P.C20_stop_founded', 'Esc.P.tryDelete_notInGroup'],
+                          'Esc.P.C12_containment', 'Esc.P.C20_stop_founded', 'Esc.P.tryDelete_notInGroup', 'Esc.P.forever_stops_on_every_error'],
                 technique='Lean 4 theorem (totality/termination of the model by construction, enumeration of RunOnce outcomes, error containment, index guard) + differential correspondence of the outcome class of every scan under odd object shapes and single/double injected faults + monitor; partial',
                 level_text='PARTIAL. Proved over the model: every function is total and every loop bounded (accepted definitions; C20_ready_bounded), a RunOnce ends in one of five enumerated ways (C20_outcomes), errors confined to a node or group do not stop the run '
                            '(C20_contained), the only out-of-range index on the path is guarded (C20_provider_id_guard); C20_fatal_only_partial: without refresh failure / fleet strikes the only fatal outcome is not-in-group (the two other stop conditions are findings T5, T8). '
